@@ -46,6 +46,7 @@ THEOREMS = {
                                   "Tr.emitsShaped_of_inv", "Tr.nv_full_route_arrival",
                                   "Tr.C12_full_route_departure", "Tr.C12_full_route_departure_indexed", "Tr.C12_full_route", "Tr.fwdStep_shift1", "Tr.bestEgress_shift", "Tr.reversePass_shift",
                                   "Tr.nv_full_route_departure", "Tr.C12_full_alternatives", "Tr.alternativesRouting_shift", "Tr.altLoop_shift", "Tr.nv_full_alternatives",
+                                  "Tr.C12_window_route", "Tr.C12_window_alternatives", "Tr.C12_window_accessibility", "Tr.window_rev", "Tr.window_fwd", "Tr.nv_window",
                                   "Tr.C12_index_transparent_route", "Tr.C12_index_transparent_accessibility", "Tr.fwdScan_from_start", "Tr.revScan_from_start",
                                   "Tr.singleReverse_eq0", "Tr.before_start_early", "Tr.before_start_late", "Tr.fwdIndex_spec", "Tr.revIndex_spec", "Tr.C18_index_safe", "Tr.C07_scan_start",
                                   "Tr.C12_departure", "Tr.C12_arrival", "Tr.C12_map_departure", "Tr.C12_map_arrival", "Tr.C12_departure_query", "Tr.C12_arrival_query",
@@ -185,7 +186,9 @@ _reg("C12", "PROOF (ALL THREE QUERY TYPES IN FULL on the sentinel-free range; pa
      "the best arrival time over the trips the forward pass marked usable Tr.reversePass_shift (single-query reverse scan Tr.revStep_shift1 with a real or unset requested departure, best "
      "access stop Tr.bestAccess_shift, reconstruction, clean-up, emission Tr.emit_shift on journeys of the emitted shape, which the C01 chain provides: Tr.emitsShaped_of_inv), and the "
      "alternatives search Tr.altLoop_shift / Tr.alternativesRouting_shift (it reads routes only through durations and line sets); hypotheses satisfiable with a route found: "
-     "Tr.nv_full_route_arrival, Tr.nv_full_route_departure, Tr.nv_full_alternatives. (0) Tr.C12_full_accessibility_departure(_indexed) and Tr.C12_full_accessibility_arrival(_indexed) - "
+     "Tr.nv_full_route_arrival, Tr.nv_full_route_departure, Tr.nv_full_alternatives. In plain words (Tr.C12_window_route / _alternatives / _accessibility, Tr.Window): if every scheduled time "
+     "of the data lies in [lo, hi], footpaths take at most W, router walks between 0 and A, minimum waiting times at most M, and lo is at least W + M + A after 0:00 on both sides of the "
+     "shift (hi + W + A below MAX_INT, the request at least A after 0:00), then every query of every type answers the shifted problem with the shifted answer. (0) Tr.C12_full_accessibility_departure(_indexed) and Tr.C12_full_accessibility_arrival(_indexed) - "
      "translation invariance of the CALCULATION ITSELF for accessibility in both time types (arrival: reverse scan Tr.revStep_shift, reconstruction Tr.reconLoop_shift, clean-up with all four rewrite "
      "cases Tr.applyFound_shift / Tr.optimizeJourney_shift, transfer count; range condition = every label candidate stays >= 0 on both sides, the property's 'next to 0:00'; Tr.nv_full_shift_rev). For "
      "departure-time accessibility: for EVERY dataset (zero-duration hops, any footpaths), every query (first-waiting cap, limits, scenario) and every offset k, with the clock values clear of the "
